@@ -74,15 +74,16 @@ theorem apply_calls_as_modelled :
        ("_apply_stroke_effect", ["layer", "color", "shape", "alpha"])] := by decide
 
 def overlayPastes : List String :=
-  ["color = paste(self._viewport, layer.bbox, color, 1.0)",
+  ["bbox = self._bbox(layer)", "color = paste(self._viewport, bbox, color, 1.0)",
    "shape_e = np.ones((self.height, self.width, 1), dtype=np.float32)",
-   "shape_e = paste(self._viewport, layer.bbox, shape_e)",
+   "shape_e = paste(self._viewport, bbox, shape_e)",
    "opacity = effect.opacity / 100.0"]
 
 def overlayArgs : List String := ["color", "shape * shape_e", "alpha * shape_e * opacity", "effect.blend_mode"]
 
 /-- the four effect functions: which effects, the source each hands to `_apply_source` (`overlaySrc`, `strokeFxSrc`),
-where colour and shape are pasted (`pasteAt V bbox … white` / `… 0`; the stroke colour on 0), opacity = percent / 100
+where colour and shape are pasted (`pasteAt V bbox … white` / `… 0` with `bbox = self._bbox(layer)`, the box `apply` tests
+against the viewport: `pr.bbox`; the stroke colour on 0), opacity = percent / 100
 (times byte / 255 of the layer opacity for the stroke effect: 1/25500 per unit of both) -/
 theorem effect_sources_as_modelled :
     Generated.CompositeFx.overlaySources =
@@ -90,8 +91,8 @@ theorem effect_sources_as_modelled :
        ("_apply_pattern_overlay", "layer.effects.find(\"patternoverlay\")", overlayArgs, overlayPastes, 1, 100),
        ("_apply_gradient_overlay", "layer.effects.find(\"gradientoverlay\")", overlayArgs, overlayPastes, 1, 100),
        ("_apply_stroke_effect", "layer.effects.find(\"stroke\")", ["color", "shape", "shape * opacity", "effect.blend_mode"],
-        ["shape_in_bbox = paste(layer.bbox, self._viewport, shape)", "color = paste(self._viewport, layer.bbox, color)",
-         "shape = paste(self._viewport, layer.bbox, shape_in_bbox)",
+        ["bbox = self._bbox(layer)", "shape_in_bbox = paste(bbox, self._viewport, shape)", "shape_in_bbox = shape",
+         "color = paste(self._viewport, bbox, color)", "shape = paste(self._viewport, bbox, shape_in_bbox)",
          "opacity = effect.opacity / 100.0 * (layer.opacity / 255.0)"], 1, 25500)] := by decide
 
 /-- `_get_const`: fill opacity and layer opacity are the stored bytes over 255; no fill-opacity block means 1 -/
